@@ -29,4 +29,19 @@ META = {
   'text': 'Part (a), registry laws, proved for every order of For/CancelOlderThan/Shutdown: For fails iff shut down or key older than an earlier CancelOlderThan argument; a context is done iff Shutdown happened or a later CancelOlderThan had a newer argument; CancelOlderThan cancels exactly the older live contexts and nothing at or above its argument; watermark = max argument; one context per key. Tied to the real ViewContexts exhaustively for all sequences of 4 (quick) / 5 (thorough) ops over a 2x2 key range plus random long sequences. Part (b), the loop discipline (cancel before forward, no broadcast after cancellation), is checked on the worker model/engine.',
   'note': 'Trusted: Coq kernel, Contexts.v model, Go context package semantics. Promptness of SPI reaction to cancellation is runtime behaviour and is not modelled.',
  },
+ 'C07': {
+  'technique': 'Coq proof (guard extraction on the executable node model) + lockstep correspondence with the real WorkerLoop',
+  'text': 'Theorem for every term state and every message: whenever handling a message makes the node send a PREPARE it had not sent before, the message is a NEW_VIEW carrying the certificate of the statement (right type, leader signature, votes for exactly this height and view from pairwise distinct committee members passing the quorum test, each with a valid signature and a valid prepared proof, proposal = hash of the maximal proof or a validated fresh block), or it is a standalone PREPREPARE by the leader of that view; no other message kind can cause a PREPARE. The second disjunct in a view above 0 is a genuine defect that cannot be repaired without editing pinned tests (known finding KF-1): the full statement is refuted with a kernel-checked witness and reproduced on the real code on every run. Tie: N real nodes (real WorkerLoop, unforgeable-signature SPI fakes) are driven in lockstep with the Gallina node on random adversarial schedules; every output, storage write and state getter is compared; Go reference monitors judge the implementation directly.',
+  'note': 'Trusted: Coq kernel, Term.v model, harness (decoding of wire bytes into abstract messages with the repo readers, signature flags from the harness key manager). Leader side of the statement is covered by C09.',
+ },
+ 'C08': {
+  'technique': 'Coq proof (influence implies reference predicate) + lockstep correspondence',
+  'text': 'Theorems: if handling a message changes anything in the term (storage, view, outputs) then the message satisfies the reference predicate of the statement for its kind (type tag matches the envelope, signature valid under the claimed sender, sender in the committee, PREPREPARE from the leader of its view, PREPARE from a non-leader and not below the current view, COMMIT with valid share, VIEW_CHANGE addressed to this node as leader and not below its view with a proof satisfying proof_spec, NEW_VIEW from the leader and not below the view); the filter only hands over messages of this instance and height not sent by the node itself; the code\'s vote/proof validation implies the declarative vote_spec/proof_spec. Tie: lockstep world engine with one mutation operator per guard (Appendix D) and a Go reference predicate evaluated on every delivery.',
+  'note': 'Trusted: Coq kernel, Term.v model, harness. The NEW_VIEW certificate itself is C07.',
+ },
+ 'C10': {
+  'technique': 'Coq proof (invariant over all event sequences of a term) + lockstep correspondence',
+  'text': 'Theorems for startTerm followed by any sequence of deliveries and election triggers under any registry state: the invariant TInv holds, hence at most one PREPARE hash, one COMMIT hash and one proposal hash per view, PREPARE and COMMIT of a view agree, every PREPARE is for the stored proposal of that view\'s leader who is not this node, every COMMIT was sent holding a prepared certificate or a commit quorum for exactly that (view, hash), VIEW_CHANGE views strictly increase, and PREPREPARE/PREPARE/NEW_VIEW are only sent for the current view, which never decreases. Tie: lockstep world engine (equivocating Byzantine leaders, duplicates, re-delivery) + a monitor over each node\'s send stream.',
+  'note': 'Trusted: Coq kernel, Term.v model, harness. Stated per term (one height); a height gets one term per node by C13.',
+ },
 }
